@@ -340,6 +340,12 @@ def verdictEntry (s : S α) (w : W α) (ent : Entry α) (t : List String) : Stri
           "FAIL:transparent_on_raise_" ++ sch ++ "_" ++ ((t.headD "").drop 4).toString
         else "ok"
   if transparent != "ok" then transparent else
+  -- after a call that returns, the analytical derivatives of the wrapped function are switched on
+  -- exactly when the wrapper has the corresponding derivatives on (delegation_fresh)
+  let eFlags := section_ t "E" markers
+  let want1 := showBool (w.c1 && decide (w.fn.kind ≥ 1))
+  let want2 := if w.scheme == .two then showBool w.fn.en2 else showBool (w.c2 && decide (w.fn.kind ≥ 2))
+  if implOk && eFlags != [want1, want2] then "FAIL:delegation_flags" else
   -- every logged point satisfies the constraints of the wrapped function and (when the wrapped
   -- function has no precision) those of the list the caller passed
   let n := w.fn.params.length
